@@ -163,6 +163,44 @@ fn c01_bp_rearm() {
     std::mem::forget(bp);
 }
 
+//@ harness: c01_bp_lift_keeps_neighbours
+//@ property: C01
+//@ obligation: H-C01-a
+//@ tier: quick
+//@ encodes: Breakpoint::{new_inner, enable, disable, is_enabled}
+//@ symbolic: 24 bytes of text, breakpoint offset 0..16, one foreign byte store (any other offset, any value - another breakpoint's INT3 going in or coming out next to this one, or a store by another thread) performed WHILE the breakpoint is armed
+//@ bounds: sequence enable; <foreign store>; disable; 24-byte window; unwind 26 (harness compare loops only)
+//@ oracle: lifting a breakpoint restores its own byte and nothing else: memory afterwards is the original image with the foreign store applied (a neighbour's INT3 in the same ptrace word survives, a removed neighbour is not resurrected)
+//@ stubs: nix::sys::ptrace::read / write -> 24-byte memory model (8-byte words, EIO outside)
+//@ outside: stores to the breakpoint's own byte while it is armed (self-modifying code under a breakpoint)
+//@ timeout: 900
+#[kani::proof]
+#[kani::stub(nix::sys::ptrace::read, stub_read)]
+#[kani::stub(nix::sys::ptrace::write, stub_write)]
+#[kani::unwind(26)]
+fn c01_bp_lift_keeps_neighbours() {
+    let init = init_mem();
+    let off = any_off();
+    let bp = mk_bp(off, BrkptType::UserDefined, 1);
+    let r = bp.enable();
+    bsv!(r.is_ok(), "enable succeeds inside mapped memory");
+    let foff: usize = kani::any();
+    kani::assume(foff < MEM_LEN && foff != off);
+    let fval: u8 = kani::any();
+    let mut want = init;
+    unsafe { MEM[foff] = fval };
+    want[foff] = fval;
+    let r2 = bp.disable();
+    bsv!(r2.is_ok(), "disable succeeds");
+    bsv!(same_except(&mem(), &want, NONE, NONE), "lifting a breakpoint restores its own byte and leaves every other byte as it is now");
+    bsv!(!bp.is_enabled(), "lifted");
+    kani::cover!(foff == off + 1 && fval == 0xCC, "a neighbouring breakpoint armed one byte further, same word");
+    kani::cover!(off % 8 == 7 && foff + 1 == off, "neighbour just below, breakpoint in the last byte of a word");
+    kani::cover!(true, "BSV-END");
+    std::mem::forget((r, r2));
+    std::mem::forget(bp);
+}
+
 //@ harness: c02_two_patch_step
 //@ property: C02
 //@ obligation: H-C02-a1
